@@ -504,7 +504,10 @@ Fixpoint open_time (ops : list op) (t : N) : option N :=
 Definition at_open (topen : option N) (t : N) : bool :=
   match topen with Some o => t =? o | None => false end.
 
-Definition check_entry (topen : option N) (pts : list N) (tis : list tinfo) (log : list (nat * N * N)) (e : nat * N * N) : bool :=
+(* SAFETY clauses of a log entry (proved to hold of every model run: C12_oracle_sound_safety):
+   it comes from a message timer that exists, with a legal number, never before creation +
+   k periods, and it is in the log exactly once *)
+Definition check_entry_safe (tis : list tinfo) (log : list (nat * N * N)) (e : nat * N * N) : bool :=
   match e with
   | (i, k, t) =>
       match nth_error tis i with
@@ -516,14 +519,33 @@ Definition check_entry (topen : option N) (pts : list N) (tis : list tinfo) (log
            | _ => false
            end)
           && (ti_born ti + k * ti_dur ti <=? t)
-          && (match first_ge pts (ceil_ms (ti_born ti + k * ti_dur ti)) with
-              | Some p => (t <=? p) || at_open topen t
-              | None => false
-              end)
-          && (match ti_abort ti with Some ta => (t <=? ta) || at_open topen t | None => true end)
           && Nat.eqb (count_log i k log) 1
       end
   end.
+
+(* the remaining clauses of a log entry (checked by evaluation on every scenario only): not
+   later than the first instant at which the runtime got to run at or after the k-th wheel
+   deadline (no drift), never after an abort that took place strictly earlier *)
+Definition check_entry_rest (topen : option N) (pts : list N) (tis : list tinfo) (e : nat * N * N) : bool :=
+  match e with
+  | (i, k, t) =>
+      match nth_error tis i with
+      | None => false
+      | Some ti =>
+          (match first_ge pts (ceil_ms (ti_born ti + k * ti_dur ti)) with
+           | Some p => (t <=? p) || at_open topen t
+           | None => false
+           end)
+          && (match ti_abort ti with Some ta => (t <=? ta) || at_open topen t | None => true end)
+      end
+  end.
+
+Definition check_entry (topen : option N) (pts : list N) (tis : list tinfo) (log : list (nat * N * N)) (e : nat * N * N) : bool :=
+  check_entry_safe tis log e && check_entry_rest topen pts tis e.
+
+Definition check_C12_safety (ops : list op) (o : obs) : bool :=
+  forallb (check_entry_safe (scan ops 0 []) (o_log o)) (o_log o)
+  && forallb (fun e => match o_exit o with Some (_, te) => snd e <=? te | None => true end) (o_log o).
 
 Definition ops_have (f : op -> bool) (ops : list op) : bool := existsb f ops.
 
